@@ -692,6 +692,8 @@ def list_method(I, st, ref, o: ListObj, name, args, kwargs, node):
     site = getattr(node, "lineno", None)
     if name in ("append", "extend", "insert", "sort", "pop", "remove", "clear", "reverse"):
         I.ctx.frame_store(I, st, ref, node, name)
+    if name in ("append", "extend", "insert", "sort", "pop", "remove", "clear", "reverse"):
+        o.arr = None
     if name == "append":
         if o.concrete:
             o.items.append(args[0])
